@@ -30,6 +30,10 @@ pub enum SegKind {
     OverLong,
     OverLongGarbage,
     Random,
+    /// two valid frames whose separating sentinel was lost on the line
+    Merged,
+    /// the first part of a valid frame cut off by a spurious zero byte
+    SplitHead,
 }
 
 /// Ground truth known by construction of the workload (not from any decoder).
@@ -923,9 +927,35 @@ fn gen_acc_trace(rng: &mut Rng, o: &GenOpts, sweep_len: Option<usize>) -> AccTra
                 b.push(0);
                 mk(SegKind::Garbage, b, None)
             }
-            10 => match truncated_frame(rng, &cfg, &shape, fit) {
-                Some(b) => mk(SegKind::Truncated, b, Some(Expect::Error)),
-                None => empty(),
+            10 => match rng.below(3) {
+                0 => match truncated_frame(rng, &cfg, &shape, fit) {
+                    Some(b) => mk(SegKind::Truncated, b, Some(Expect::Error)),
+                    None => empty(),
+                },
+                1 => {
+                    // sentinel lost: two frames arrive glued together
+                    let half = (fit / 2).max(2);
+                    match (valid_frame(rng, &cfg, &shape, half), valid_frame(rng, &cfg, &shape, half)) {
+                        (Some((mut a, _)), Some((b, _))) if a.len() + b.len() - 1 <= fit => {
+                            a.pop();
+                            a.extend_from_slice(&b);
+                            mk(SegKind::Merged, a, None)
+                        }
+                        _ => empty(),
+                    }
+                }
+                _ => {
+                    // spurious zero: only the head of a frame, terminated early
+                    match valid_frame(rng, &cfg, &shape, fit) {
+                        Some((f, _)) if f.len() >= 3 => {
+                            let keep = rng.range(1, f.len() - 2);
+                            let mut h = f[..keep].to_vec();
+                            h.push(0);
+                            mk(SegKind::SplitHead, h, None)
+                        }
+                        _ => empty(),
+                    }
+                }
             },
             11 | 12 => {
                 // over-long *valid* frame: a frame of the target type longer than N
